@@ -943,6 +943,11 @@ func (fr *frame) callsiteObls(b *ssa.BasicBlock, st *state, ins ssa.Instruction,
 		f := vc.trClause(tr, cl)
 		vc.addObl(&obligation{Name: fmt.Sprintf("callsite/%s@%s#%d", cl.Label, short, n), Kind: "ensures", Label: cl.Label, Goal: and(fr.cond[b], not(f)),
 			Pos: vc.pos(ins.Pos()), Clause: cl.Src, Props: propsOfLabel(cl.Label, vc.props), Inputs: vc.inputTerms()})
+		// cover: the call site can be reached under the assumptions made so far (a clause proved on a dead path proves nothing)
+		if !vc.coveredSites[ins] {
+			vc.coveredSites[ins] = true
+			vc.addObl(&obligation{Name: fmt.Sprintf("vacuity/callsite-reachable@%s#%d", short, n), Kind: "vacuity", Goal: fr.cond[b], ExpectSat: true})
+		}
 		// asserted, then available as a fact on the paths through this call
 		vc.c.assume(implies(fr.cond[b], f))
 	}
